@@ -10,6 +10,7 @@ import Drv.Verify
 import Drv.Method
 import Drv.Decl
 import Drv.Attrs
+import Drv.Pickle
 /-! Line-protocol driver: `driver <layer> [args]` reads operation lines on stdin and prints one
     answer line per operation, computed by the executable model definitions. -/
 def main (args : List String) : IO Unit := do
@@ -26,4 +27,5 @@ def main (args : List String) : IO Unit := do
   | "method" :: _ => Drv.Method.main
   | "decl" :: _ => Drv.Decl.main
   | "attrs" :: _ => Drv.Attrs.main
+  | "pickle" :: _ => Drv.Pickle.main
   | _ => IO.eprintln "usage: driver <layer>"
